@@ -86,6 +86,22 @@ def main():
         if bad:
             ctx.tie_broken("proof", "forbidden vernacular in development: %s" % bad[:5])
         files = lib.closure_files(plug.PROP_FILE)
+        if a.tier == "thorough" and not ctx.broken:
+            # independent re-check of the compiled property file and everything it depends on, with the list of axioms
+            mod = "PyccoloV." + plug.PROP_FILE.replace(".v", "").replace("/", ".")
+            import subprocess
+            try:
+                pr = subprocess.run(["timeout", "1500", "coqchk", "-o", "-silent", "-Q", ".", "PyccoloV", mod], cwd=os.path.join(lib.VERIF, "coq"),
+                                    capture_output=True, text=True)
+                out = pr.stdout + pr.stderr
+                summary = out[out.find("CONTEXT SUMMARY"):] if "CONTEXT SUMMARY" in out else out[-1500:]
+                wanted = ["* Axioms: <none>", "type-in-type: <none>", "unsafe (co)fixpoints: <none>", "positivity is assumed: <none>"]
+                if pr.returncode != 0 or not all(w in summary for w in wanted):
+                    ctx.tie_broken("proof", "coqchk does not accept %s or reports axioms / unchecked definitions" % mod, summary[-3000:])
+                else:
+                    ctx.note("coqchk -o %s: Axioms <none>; no type-in-type, unsafe fixpoints or assumed positivity" % mod)
+            except Exception as e:
+                ctx.tie_broken("proof", "coqchk could not be run: %s" % e)
     model_ok = not any(b["kind"] == "proof" and "build failed" in b["what"] for b in ctx.broken)
 
     # 3. correspondence (tie K) and oracle (the property itself on the implementation)
